@@ -276,6 +276,10 @@ class DictList(list):
         other : iterable
             other must contain only unique id's present in the list
         """
+        other = list(other)
+        # make sure every item is present before removing any of them
+        for item in other:
+            self.index(item)
         for item in other:
             self.remove(item)
         return self
